@@ -24,22 +24,22 @@ Kf(name) == PrintT(<<"KF", l, name>>)
 FbSchemas == {"1.15.0", "1.17.0", "1.18.0d", "1.18.0o", "2.18.0", "2.20.1", "2.20.2", "2.20.3", "2.21.0", "2.21.1", "2.21.2"}
 
 \* snapshots of all live tracks as observed in record r
-Snaps(r) == [id \in {x.id : x \in ToSet(r.obs.tk)} |-> (CHOOSE x \in ToSet(r.obs.tk) : x.id = id).snap]
+Snaps(r) == [id \in {x.id : x \in ToSet(r.obs.tk)} |-> (CHOOSE x \in ToSet(r.obs.tk) : x.id = id).snap.v]
 
 \* every getter returns the corresponding snapshot field (C06), per-slot getters agree with the lists
 GettersAgree(r, F) ==
     \A x \in ToSet(r.obs.tk) :
         /\ ~IsThrow(x.snap)
+        /\ \A f \in DOMAIN x.get : ~IsThrow(x.get[f])
         /\ \A f \in AllFields \ {"file_bytes"} :                  \* (no getter exists for file_bytes)
-              \/ x.get[f] = x.snap[f]
-              \/ F = "v1" /\ f = "rating" /\ Kf("v1-snapshot-rating")
-        /\ x.get.cue_at = x.snap.hot_cues /\ x.get.loop_at = x.snap.loops
+              x.get[f].v = x.snap.v[f]
+        /\ x.get.cue_at.v = x.snap.v.hot_cues /\ x.get.loop_at.v = x.snap.v.loops
 NoWrite(r) == r.o16.w = 0 /\ r.o16.chg = 0 /\ (Has(r.o16, "same") => r.o16.same) /\ (Has(r.o16, "rep") => r.o16.rep)
 \* observing through handles to removed tracks: completes or throws a std::exception, validity false
 StaleOK(r, D) == \A s \in ToSet(r.obs.stale) : s.id \in D /\ s.v = FALSE /\
                     (Has(s, "get") => \A f \in DOMAIN s.get : (IsThrow(s.get[f]) => s.get[f].std))
 DerivedOK(r, PI) == \A x \in ToSet(r.obs.tk) : x.id \in DOMAIN PI =>
-                        x.get.fn = PI[x.id].base /\ x.get.ext = PI[x.id].ext
+                        x.get.fn.v = PI[x.id].base /\ x.get.ext.v = PI[x.id].ext
 ObsOK(r, TS, D, F, PI) ==
     /\ Has(r, "obs")
     /\ DOMAIN TS = {x.id : x \in ToSet(r.obs.tk)}
@@ -47,6 +47,13 @@ ObsOK(r, TS, D, F, PI) ==
     /\ GettersAgree(r, F) /\ NoWrite(r) /\ StaleOK(r, D) /\ DerivedOK(r, PI)
 
 Unchanged(r) == Snaps(r) = ts
+
+\* Known finding (see known_findings.jsonl, v1-bpm-from-grid): when a snapshot carries no BPM, the 1.x family stores
+\* the tempo of its first two beat-grid markers instead, so the absent field reads back as present.
+BpmDerived(in, out) == fam = "v1" /\ in.bpm = <<>> /\ out.bpm # <<>> /\ in.beatgrid.n >= 2 /\ in.sample_rate # <<>>
+SnapOKx(in, out) ==
+    \A f \in AllFields : \/ FieldOK(fam, fb, f, in[f], out[f])
+                         \/ (f = "bpm" /\ BpmDerived(in, out) /\ Kf("v1-bpm-from-grid"))
 Faulted(r) == Has(r, "fault") /\ r.fault.fired
 
 \* ---- the calls ----
@@ -58,7 +65,7 @@ Create(r) ==
        /\ LET S == Snaps(r) IN
           /\ DOMAIN S = DOMAIN ts \cup {r.new}
           /\ \A u \in DOMAIN ts : S[u] = ts[u]                               \* other tracks untouched
-          /\ SnapOK(fam, fb, r.in, S[r.new])                                 \* C01
+          /\ SnapOKx(r.in, S[r.new])                                        \* C01
           /\ ts' = S
        /\ dead' = dead \ {r.new}
        /\ pinfo' = (r.new :> r.pathinfo) @@ pinfo
@@ -70,17 +77,17 @@ Update(r) ==
        /\ LET S == Snaps(r) IN
           /\ DOMAIN S = DOMAIN ts
           /\ \A u \in DOMAIN ts \ {r.t} : S[u] = ts[u]
-          /\ SnapOK(fam, fb, r.in, S[r.t])
+          /\ SnapOKx(r.in, S[r.t])
           /\ ts' = S
        /\ dead' = dead
        /\ pinfo' = [pinfo EXCEPT ![r.t] = r.pathinfo]
 
 \* which snapshot field a setter addresses, and what the field must read back as
 SetField(f) == IF f = "hot_cue_at" THEN "hot_cues" ELSE IF f = "loop_at" THEN "loops" ELSE f
-SlotSet(old, i, v, offField) == [k \in 1 .. 8 |-> IF k = i + 1 THEN SlotNorm(v, offField) ELSE old[k]]
+SlotSet(old, i, v, offField) == [k \in 1 .. Len(old) |-> IF k = i + 1 THEN SlotNorm(v, offField) ELSE old[k]]
 SetOK(r, old, new) ==
-    CASE r.f = "hot_cue_at" -> r.in.i \in 0 .. 7 /\ new = SlotSet(old, r.in.i, r.in.v, "off")
-      [] r.f = "loop_at" -> r.in.i \in 0 .. 7 /\ new = SlotSet(old, r.in.i, r.in.v, "start")
+    CASE r.f = "hot_cue_at" -> r.in.i \in 0 .. Len(old) - 1 /\ new = SlotSet(old, r.in.i, r.in.v, "off")
+      [] r.f = "loop_at" -> r.in.i \in 0 .. Len(old) - 1 /\ new = SlotSet(old, r.in.i, r.in.v, "start")
       [] OTHER -> FieldOK(fam, fb, r.f, r.in, new)
 
 Set(r) ==
@@ -109,9 +116,13 @@ Remove(r) ==
 \* C01: the read-back snapshot is a fixed point of update
 Fixpoint(r) ==
     /\ r.out = "ok" /\ r.t \in DOMAIN ts
-    /\ r.s1 = ts[r.t] /\ r.s2 = r.s1
-    /\ Unchanged(r)
-    /\ ts' = ts /\ dead' = dead /\ pinfo' = pinfo
+    /\ r.s1 = ts[r.t]
+    /\ \/ r.s2 = r.s1 /\ Unchanged(r) /\ ts' = ts
+       \* (known finding v1-bpm-from-grid: a snapshot without BPM is not a fixed point when a beat grid is present)
+       \/ /\ BpmDerived(r.s1, r.s2) /\ \A f \in AllFields \ {"bpm"} : r.s2[f] = r.s1[f]
+          /\ Snaps(r) = [ts EXCEPT ![r.t] = r.s2] /\ ts' = Snaps(r)
+          /\ Kf("v1-bpm-from-grid")
+    /\ dead' = dead /\ pinfo' = pinfo
 
 \* C15: an unmodelled call (on a handle to a removed track, or with arguments outside the nominal
 \* ranges): it must complete or throw a std::exception, and so must every observer afterwards.
@@ -163,8 +174,13 @@ TReset ==
     /\ probing' = FALSE
     /\ l' = l + 1
 
+\* the driver could not attempt a scripted call (its subject was never created): nothing happened
+TSkip ==
+    /\ l <= Len(Log) /\ Log[l].e = "skip"
+    /\ l' = l + 1 /\ UNCHANGED <<fam, fb, ts, dead, pinfo, probing>>
+
 TInit == l = 1 /\ fam = "v2" /\ fb = TRUE /\ ts = <<>> /\ dead = {} /\ pinfo = <<>> /\ probing = FALSE
-TNext == TCall \/ TProbe \/ TReopen \/ TReset
+TNext == TCall \/ TProbe \/ TReopen \/ TReset \/ TSkip
 TSpec == TInit /\ [][TNext]_tvars
 Accepted == TLCGet("stats").diameter - 1 = Len(Log)
 =============================================================================
